@@ -498,6 +498,14 @@ def _run_track(case, ctx):
         _reuse_base_object(base)
         ctx.count("caller_reuses_base_object")
         _base_recorded(tr, b1, "toENUCoords(%s base), after the caller modified its own base object" % form, ctx)
+    if len(pts) % 3 == 1:
+        # error path: conversion requests on the local track that cannot be honoured (a projection identifier where a
+        # base point is expected; ENU -> ENU without a new base); what they raise is not judged -- the conversions
+        # that follow on the same track object are
+        M.call(tr.toENUCoords, 2154)
+        M.call(tr.toENUCoords, "not a base")
+        ctx.count("rejected_conversion_before_valid_ones")
+        _base_recorded(tr, b1, "toENUCoords(%s base), after rejected conversion requests" % form, ctx)
     nconv += 1
     enu_b1 = _coords(tr)
     if form == "none":
